@@ -197,6 +197,14 @@ func NewReg(chainID int32) *Reg {
 		sndIdx: map[string]int{}, Black: map[string]bool{}, NextID: 1}
 }
 
+// ResetDefs forgets all definitions (a new history starts); alias numbers keep growing and
+// sender aliases persist.
+func (r *Reg) ResetDefs() {
+	r.ByID = map[int]*Rec{}
+	r.MemByID = map[int]*Member{}
+	r.byHash = map[string]int{}
+}
+
 // SndAlias returns the alias number of an address (allocated on first use).
 func (r *Reg) SndAlias(addr string) int {
 	if i, ok := r.sndIdx[addr]; ok {
